@@ -3,7 +3,7 @@
    H is an arbitrary hash function; nothing is assumed about it unless stated. *)
 From ChiaV.Base Require Import Bytes Sha256.
 From ChiaV.Gen Require Import Mset.
-From ChiaV.Merkle Require Import MerkleSpec MerkleSet MerkleTree MerkleConstProofs MerkleSetProofs MerkleProofSpec MerkleTreeProofs MerkleDeserProofs MerkleSoundProofs MerkleCompleteProofs MerkleExamples.
+From ChiaV.Merkle Require Import MerkleSpec MerkleSet MerkleTree MerkleConstProofs MerkleSetProofs MerkleProofSpec MerkleTreeProofs MerkleDeserProofs MerkleSoundProofs MerkleCompleteProofs MerkleExamples MerkleDepth MerkleDepthProofs.
 Open Scope N_scope.
 
 (* EMPTY_NODE_HASH (merkle_tree.rs) is SHA-256 of BLANK (merkle_set.rs), both read from the source on this run *)
@@ -62,3 +62,11 @@ Theorem C12_example_member : ex_run ex_a = Some (true, true).
 Proof. exact example_member. Qed.
 Theorem C12_example_non_member : ex_run ex_x = Some (false, false).
 Proof. exact example_non_member. Qed.
+
+(* (5) the u8 depth arithmetic never overflows on the paths reachable from honest proof generation:
+   on every tree built by from_leafs, generate_proof with overflow-CHECKED `depth + 1` (debug-build semantics:
+   Panic on overflow, MerkleDepth.v) returns exactly what the wrapping (release-build) mirror returns -- which by
+   C12_proof_complete is Ok.  Holds for every H, every leaf list and every queried item. *)
+Theorem C12_depth_never_overflows : forall (H : bytes -> bytes) S x, Forall leaf32 S ->
+  exists t, from_leafs H S = Ok t /\ generate_proof_chk t x = generate_proof t x.
+Proof. exact depth_never_overflows. Qed.
